@@ -314,8 +314,20 @@ def explore(fmt, kind, amount, res, rng, tier, amount_value=None):
                                0x80000001, 1 << 40])
     amt_in = rng.choice([1, 5, -3, 123456, -(1 << 31)])
     with kern.session() as sess:
-        e, r, size = build(fmt, kind, amount, amount_value)
-        ld = prog.Loaded(e, sess)
+        import os
+        pinned = rng.random() < 0.25
+        allowed = os.sched_getaffinity(0)
+        if pinned:
+            # the master that generates the program is confined to one core
+            # (taskset, a cpuset); the kernel runs the program on all
+            os.sched_setaffinity(0, {min(allowed)})
+            res.count("programs_generated_while_confined_to_one_cpu")
+        try:
+            e, r, size = build(fmt, kind, amount, amount_value)
+            ld = prog.Loaded(e, sess)
+        finally:
+            if pinned:
+                os.sched_setaffinity(0, allowed)
         start, stop = r["start"], r["stop"]
         nins = stop - start
         res.count(f"stmt_instructions[{nins}]")
